@@ -49,6 +49,9 @@ def apply(op, root, out):
             os.mkdir(O("in_" + op[1])) if not os.path.exists(O("in_" + op[1])) else None
             os.makedirs(O("in_" + op[1] + "/sub"), exist_ok=True)
             os.rename(O("in_" + op[1]), R(op[1]))
+        elif k == "moveback":
+            # a directory that was moved out earlier (and is still watched by the kernel) returns under another name
+            os.rename(O(op[1]), R(op[2]))
         elif k == "rm-moved-out":
             shutil.rmtree(O(op[1]))
         elif k == "mkabs":
@@ -124,7 +127,7 @@ def run_history(ops, recursive=True, inject=None, small=False, batched=False):
             if op[0] == "rename-split":
                 SMALL[0] = True    # the two halves of THIS rename are read by two read_events() calls (timing of the reader)
             prev_kind = op[0] if ok else None
-            arrived = (op[1] if op[0] in ("mkdir", "movein") else op[2] if op[0] in ("rename", "rename-split") else None) if ok else None
+            arrived = (op[1] if op[0] in ("mkdir", "movein") else op[2] if op[0] in ("rename", "rename-split", "moveback") else None) if ok else None
             if not ok:
                 continue
             if op[0] == "movein":
@@ -198,6 +201,8 @@ NAMED = {
     "descendant path repeats the renamed directory's own path": [("mkdir", "a"), ("mkabs", "a"), ("rename", "a", "b")],
     "nested rename chain": [("mkdir", "a"), ("mkdir2", "a", "b"), ("rename", "a", "b"), ("rename", "b", "a"), ("mkdir2", "a", "a")],
     "replace an empty directory, rename again, re-create the old name and rename it": [("mkdir", "a"), ("mkdir2", "a", "b"), ("mkdir", "b"), ("rename", "a", "b"), ("rename", "b", "a2"), ("mkdir", "b"), ("rename", "b", "a")],
+    "moved out and back in under another name": [("mkdir", "a"), ("mkdir2", "a", "b"), ("moveout", "a"), ("moveback", "a", "b"), ("touch", "b")],
+    "moved out, back in under another name, renamed again": [("mkdir", "a"), ("moveout", "a"), ("moveback", "a", "b"), ("rename", "b", "a2"), ("mkdir2", "a2", "b")],
     "renamed, old name re-created and renamed away at once": [("mkdir", "a"), ("rename", "a", "b"), ("mkdir", "a"), ("rename", "a", "a2")],
     "rename read in two halves, old name re-created and renamed away at once": [("mkdir", "a"), ("rename-split", "a", "b"), ("mkdir", "a"), ("rename", "a", "a2")],
     "moved in, renamed at once, old name re-used": [("movein", "a"), ("rename", "a", "b"), ("mkdir", "a"), ("rename", "a", "a2")],
